@@ -9,7 +9,7 @@ from concurrent.futures import ThreadPoolExecutor
 
 VERIF = os.path.dirname(os.path.dirname(os.path.abspath(__file__)))
 SUB = os.environ.get("MATRIX_DIR", "seeded")  # "seeded" (property-breaking changes) or "harmless" (behaviour-preserving refactorings)
-ids = sorted(d for d in os.listdir(os.path.join(VERIF, SUB)) if os.path.isdir(os.path.join(VERIF, SUB, d)))
+ids = sorted(d for d in os.listdir(os.path.join(VERIF, SUB)) if os.path.isfile(os.path.join(VERIF, SUB, d, "patch.diff")))
 checks = [f"C{i:02d}" for i in range(1, 21)]
 ROOT = "/tmp/mx"
 os.makedirs(ROOT, exist_ok=True)
